@@ -54,7 +54,7 @@ Init0 == [hs |-> FALSE, closed |-> FALSE, wbroken |-> FALSE]
 CanAnswer(cfg, s) == cfg # "noaddr" /\ ~s.wbroken
 Quiet(s) == [s |-> s, fired |-> <<>>, wrote |-> <<>>, anydwa |-> FALSE]
 
-Step(side, cfg, s, m) ==
+Step1(side, cfg, s, m) ==
   IF s.closed THEN Quiet(s)                                             \* nothing is read from a closed transport
   ELSE IF IsApp(m) THEN
        IF ~s.hs THEN Quiet(s)                                           \* gated: no application handler before the handshake
@@ -76,6 +76,15 @@ Step(side, cfg, s, m) ==
   ELSE \* client: cea_ok / cea_fail (at most one per history)
        IF m = "cea_ok" THEN [s |-> [s EXCEPT !.hs = TRUE], fired |-> <<>>, wrote |-> <<>>, anydwa |-> FALSE]
        ELSE [s |-> [s EXCEPT !.closed = TRUE], fired |-> <<>>, wrote |-> <<>>, anydwa |-> FALSE]
+
+\* a fragment carrying two messages is processed as the two in turn (what the second does depends on what the
+\* first left behind: after a refusal the connection is closed and the request goes nowhere; after the
+\* handshake a further CER is ignored and the request is served)
+Step(side, cfg, s, m) ==
+  IF m = "cer_sec_ccr" THEN
+       LET x == Step1(side, cfg, s, "cer_sec")  y == Step1(side, cfg, x.s, "ccr") IN
+       [s |-> y.s, fired |-> x.fired \o y.fired, wrote |-> x.wrote \o y.wrote, anydwa |-> FALSE]
+  ELSE Step1(side, cfg, s, m)
 
 \* GateObs on one observed step
 StepOK(x, o) ==
